@@ -226,6 +226,36 @@ def native_checks():
         got = list(rowio.excel_rows(p, 1))
         if got != [["2015-03-14 09:26:53"], ["1999-12-31 00:00:00"]]:
             failures.append(dict(key="excel-date-rendering", what="workbook in the 1904 date system read as %r" % (got,), args=dict(datemode=1904)))
+        # cells of different kinds that store the same number (a time is a fraction of a day, a date a day count,
+        # a boolean 0/1): each is rendered by its own kind, in whatever order they occur in the sheet
+        n += 1
+        p = os.path.join(d, "kinds.xlsx")
+        wb = xlsxwriter.Workbook(p)
+        ws = wb.add_worksheet()
+        dfk = wb.add_format({"num_format": "yyyy-mm-dd hh:mm:ss"})
+        tfk = wb.add_format({"num_format": "hh:mm:ss"})
+        ws.write_number(0, 0, 0.5)
+        ws.write_datetime(0, 1, datetime.time(12, 0, 0), tfk)
+        ws.write_string(0, 2, "0.5")
+        ws.write_datetime(1, 0, datetime.datetime(2021, 1, 1), dfk)
+        ws.write_number(1, 1, 44197)
+        ws.write_string(1, 2, "44197")
+        ws.write_boolean(2, 0, True)
+        ws.write_number(2, 1, 1)
+        ws.write_string(2, 2, "1")
+        ws.write_datetime(3, 0, datetime.time(12, 0, 0), tfk)
+        ws.write_number(3, 1, 0.5)
+        ws.write_number(3, 2, 44197)
+        ws.write_string(4, 0, "10.0.0.0")
+        ws.write_string(4, 1, "v2.0")
+        ws.write_string(4, 2, "17.0")
+        wb.close()
+        got = list(rowio.excel_rows(p, 1))
+        expk = [["0.5", "12:00:00", "0.5"], ["2021-01-01 00:00:00", "44197", "44197"], ["1", "1", "1"],
+                ["12:00:00", "0.5", "44197"], ["10.0.0.0", "v2.0", "17.0"]]
+        if got != expk:
+            failures.append(dict(key="excel-cell-kinds", what="cells of different kinds with equal stored values read as %r, expected %r" % (got, expk),
+                                 args={}))
         # XlsxRowWriter round trip
         tables = [
             [["a", "b"], ["c", ""]],
